@@ -90,7 +90,7 @@ def monitor(t, V):
         typ = h["type"]
         milk = typ.startswith("milk_")
         a = T["attrs"][typ]
-        ident = {"animal_type": typ, "function": "milk" if milk else "meat", "size": a["size"]}
+        ident = {"function": "milk" if milk else "meat", "size": a["size"]}
         want = {"population": N + 1, "slaughter": N + 1, "other_death_causes_other_than_starving": N + 1,
                 "other_death_starving": N + 1, "other_death_total": N + 1, "homekill_healthy_this_month": N + 1,
                 "homekill_starving_this_month": N + 1, "homekill_other_death_this_month": N + 1,
@@ -98,7 +98,7 @@ def monitor(t, V):
         if milk:
             want.update({"retiring_milk_animals": N, "transfer_births": N})
         got = {k: (None if h[k] is None else len(h[k])) for k in want}
-        if V.check("list_alignment", got == want, ident, {"expected": want, "got": got},
+        if V.check("list_alignment", got == want, ident, {"animal_type": typ, "expected": want, "got": got},
                    "returned list lengths do not match the month-zero convention"):
             usable[typ] = (h, ident, milk, a)
 
@@ -125,7 +125,7 @@ def monitor(t, V):
             bad = ~(resid <= tol)
 
         def terms_at(m):
-            return {"month": m, "start": pop[m], "births": births[m], "transfers_in": tin[m], "retirements": ret[m],
+            return {"animal_type": typ, "month": m, "start": pop[m], "births": births[m], "transfers_in": tin[m], "retirements": ret[m],
                     "natural_deaths": nat[m], "slaughter": sl[m], "starvation_deaths": starv[m], "homekill": hk[m],
                     "end_expected": expect[m], "end_reported": pop[m + 1]}
 
@@ -155,11 +155,11 @@ def monitor(t, V):
             m = _first(nonfin)
             if m is not None:
                 V.fail("flows_nonneg_finite", dict(ident, flow=name, kind="not_finite", has_dairy_herd=has_dairy),
-                       {"index": m, "value": arr[m]}, "a head count or flow is not finite")
+                       {"animal_type": typ, "index": m, "value": arr[m]}, "a head count or flow is not finite")
             m = _first(neg & ~nonfin)
             if m is not None:
                 V.fail("flows_nonneg_finite", dict(ident, flow=name, kind="negative", has_dairy_herd=has_dairy),
-                       {"month": m, "value": arr[m], "first_values": arr[:4], "negative_months": int((neg & ~nonfin).sum()),
+                       {"animal_type": typ, "month": m, "value": arr[m], "first_values": arr[:4], "negative_months": int((neg & ~nonfin).sum()),
                         "ledger": terms_at(min(m, N - 1))},
                        "a head count or flow is negative")
         for name in ("slaughter", "other_death_causes_other_than_starving"):  # month-zero entries: probe only
@@ -238,7 +238,7 @@ def monitor(t, V):
         m = _first(bad)
         if m is not None:
             V.fail("dairy_to_meat_transfer", dict(ident, branch=branch),
-                   {"month": m, "added_to_meat_herd": tin[m], "retired_plus_surviving_male_calves": want[m], "dairy_herd": dairy},
+                   {"animal_type": typ, "month": m, "added_to_meat_herd": tin[m], "retired_plus_surviving_male_calves": want[m], "dairy_herd": dairy},
                    "animals added to the meat herd differ from dairy retirements + surviving male calves")
     for k in herds:
         if k in engine_h.DAIRY_PAIRS and engine_h.DAIRY_PAIRS[k] not in herds:
